@@ -887,6 +887,9 @@ def run_c15(ctx):
         for s in svals[:3]:
             ctx.sample({'op': 'tv', 'cfg': cfg, 'sval': enc(s)})
         ctx.violations += judge_tv(ctx, cfg, svals)
+    for cfg in [c for c in getattr(ctx, 'side_cfgs', []) if c not in ctx.cfgs]:
+        # arbitrary_precision side configuration: Number literals (-0, 1.50, 1E+2, 40-digit integers ...) inside the data, kept verbatim by both serializers
+        ctx.violations += judge_tv(ctx, cfg, tv_cases(ctx, cfg, 2500))
 
 def extended_c15(ctx):
     for cfg in ctx.cfgs:
@@ -1015,4 +1018,4 @@ TRUSTED = ['ryu::Buffer::format_finite (external crate): its text is input data 
            'literals of src/ser.rs hard-coded in Model/Ser.v, guarded by the shape check in tools/checks/ser.py']
 
 register('C03', cfgs={'quick': ['def', 'po'], 'thorough': list(engine.CONFIGS)}, side_cfgs=['ap'], run=run_c03, judge=judge_c03, extended=extended_c03, trusted_base=TRUSTED)
-register('C15', cfgs={'quick': ['fr', 'po'], 'thorough': ['fr', 'po', 'ap']}, run=run_c15, judge=judge_c15, extended=extended_c15, trusted_base=TRUSTED)
+register('C15', cfgs={'quick': ['fr', 'po'], 'thorough': ['fr', 'po', 'ap']}, side_cfgs=['ap'], run=run_c15, judge=judge_c15, extended=extended_c15, trusted_base=TRUSTED)
